@@ -331,4 +331,8 @@ example : XmlDateTime.toDatetime ⟨2024, 2, 29, 24, 0, 0, 0, none⟩ = .error .
     XmlDateTime.toDatetime ⟨2024, 1, 1, 0, 0, 0, 0, some 1440⟩ = .error .valueError :=
   ⟨rfl, rfl, rfl, rfl⟩
 
+-- to_datetime_preserves_instant: both hypotheses at once (a value of microsecond precision that converts)
+example : XmlDateTime.toDatetime ⟨2024, 2, 29, 23, 59, 59, 123456000, some 330⟩
+      = .ok ⟨2024, 2, 29, 23, 59, 59, 123456, some 19800000000⟩ ∧ pyMod 123456000 1000 = 0 := ⟨rfl, by decide⟩
+
 end Props.C06
